@@ -242,4 +242,111 @@ def runModel (cfg : Config) (ov : List (String × Num)) (txt : String) : M RunSu
   let c ← Pipeline.parseProgram cfg txt
   runCircuit ov c
 
+/-! ### The well-formedness `expand_macros` relies on, as an executable check
+
+A copy of `ExpandMacros.WellFormed` (`JaqalProofs/Lemmas/ExpandMacrosSem.lean`, where the theorems about `expand_macros` live)
+for the driver: the differential test evaluates it on the circuit `fill_in_let` returns for every generated program (hypothesis
+`BuiltWellFormed` of `C16_total_partial`).  `JaqalProofs/Props/C16.lean` proves the copy equal to the original (`wellFormed_eq`). -/
+namespace WF
+open Jaqal.ExpandMacros
+
+def noParam : Val → Bool
+  | .int _ => true
+  | .flt _ => true
+  | .none => true
+  | .str _ => true
+  | .const _ v => noParam v
+  | .param _ _ => false
+  | .qubit _ s i => noParam s && noParam i
+  | .regF _ s => noParam s
+  | .regA _ s => noParam s
+  | .regS _ s a b c => noParam s && noParam a && noParam b && noParam c
+
+def isParam : Val → Bool
+  | .param _ _ => true
+  | _ => false
+
+def okVal : Val → Bool
+  | .param _ _ => true
+  | .qubit _ s i => (isParam s || noParam s) && (isParam i || noParam i)
+  | v => noParam v
+
+def isMacro (ms : List Macro) (n : String) : Bool := (findMacro ms n).isSome
+
+def wfGate (ms : List Macro) (n : String) (gd : GateDef) (args : List (String × Val)) : Bool :=
+  n == gd.name && (args.map (·.1) == gd.params.map (·.1)) && decide ((gd.params.map (·.1)).Nodup) &&
+  args.all (fun a => okVal a.2) &&
+  (match findMacro ms n with
+   | some m => gd.params == m.params
+   | none => true)
+
+mutual
+  def wfStmt (ms : List Macro) : Stmt → Bool
+    | .gate n gd args => wfGate ms n gd args
+    | .loop c b => (isParam c || noParam c) && wfStmt ms b
+    | .block _ _ it body => (isParam it || noParam it) && wfStmtList ms body
+  def wfStmtList (ms : List Macro) : List Stmt → Bool
+    | [] => true
+    | s :: r => wfStmt ms s && wfStmtList ms r
+end
+
+mutual
+  def inScope (avail all : List String) : Stmt → Bool
+    | .gate n _ _ => decide (n ∈ avail) || !decide (n ∈ all)
+    | .loop _ b => inScope avail all b
+    | .block _ _ _ body => inScopeList avail all body
+  def inScopeList (avail all : List String) : List Stmt → Bool
+    | [] => true
+    | s :: r => inScope avail all s && inScopeList avail all r
+end
+
+def wfMacrosFrom (ms : List Macro) (pre : List String) : List Macro → Bool
+  | [] => true
+  | m :: r => wfStmt ms m.body && inScope pre (ms.map (·.name)) m.body && wfMacrosFrom ms (pre ++ [m.name]) r
+
+def isReg : Val → Bool
+  | .regF _ _ => true
+  | .regA _ _ => true
+  | .regS _ _ _ _ _ => true
+  | _ => false
+
+def intLike : Val → Bool
+  | .int _ => true
+  | .const _ (.int _) => true
+  | _ => false
+
+def regBuilt : Val → Bool
+  | .regF _ size =>
+    (match size with
+     | .int _ => true
+     | .flt _ => true
+     | .const _ _ => true
+     | _ => false)
+  | .regA _ src => isReg src && regBuilt src
+  | .regS _ src a b c => isReg src && (a == .none || intLike a) && intLike b && (c == .none || intLike c)
+  | _ => false
+
+def goodVal : Val → Bool
+  | .qubit _ s i => isArrayLike s && (!isReg s || regBuilt s) && isIndexLike i
+  | v => !isReg v || regBuilt v
+
+mutual
+  def wfT : Stmt → Bool
+    | .gate _ _ args => args.all (fun a => goodVal a.2)
+    | .loop c b => isIndexLike c && wfT b
+    | .block _ _ it body => isIndexLike it && wfTList body
+  def wfTList : List Stmt → Bool
+    | [] => true
+    | s :: r => wfT s && wfTList r
+end
+
+def wellFormed (c : Circuit) : Bool :=
+  wfMacrosFrom c.macros [] c.macros && wfStmt c.macros c.body &&
+  (match c.body with
+   | .block false false _ _ => true
+   | _ => false) &&
+  wfT c.body && c.macros.all (fun m => wfT m.body)
+
+end WF
+
 end Jaqal.RunModel
